@@ -117,6 +117,12 @@ func (P *Prover) atom(kind int, val ssa.Value, inner Poly, c int64, uns bool) *A
 		P.global = append(P.global, ap.add(constP(-1), 1))
 	case aStr:
 		P.global = append(P.global, ap.add(constP(-255), 1))
+	case aTab:
+		if g, isG := val.(*ssa.Global); isG && P.c != nil {
+			if lo, hi, ok := P.c.tableRange(g); ok && lo > minI && hi < maxI {
+				P.global = append(P.global, ap.scale(-1).add(constP(lo), 1), ap.add(constP(-hi), 1))
+			}
+		}
 	case aRem:
 		P.global = append(P.global, ap.add(constP(-(c-1)), 1)) // rem <= c-1 (inner >= 0 under the no-overflow assumption)
 		P.global = append(P.global, ap.scale(-1))
@@ -248,6 +254,17 @@ func (P *Prover) rangeOf(v ssa.Value) (lo, hi int64, ok bool) {
 		}
 	}
 	switch x := v.(type) {
+	case *ssa.UnOp:
+		// an element of a local array that is only ever filled with constants ([...]int{1, 3, 6}[k])
+		if x.Op == token.MUL {
+			if ia, ok := x.X.(*ssa.IndexAddr); ok {
+				if al, ok := ia.X.(*ssa.Alloc); ok {
+					if l, h, ok := constArrayRange(al); ok {
+						clamp(l, h)
+					}
+				}
+			}
+		}
 	case *ssa.BinOp:
 		switch x.Op {
 		case token.AND:
@@ -285,6 +302,63 @@ func (P *Prover) rangeOf(v ssa.Value) (lo, hi int64, ok bool) {
 		}
 		if b, ok := x.Call.Value.(*ssa.Builtin); ok && (b.Name() == "len" || b.Name() == "cap" || b.Name() == "copy") {
 			clamp(0, maxI)
+		}
+	}
+	return lo, hi, true
+}
+
+// constArrayRange: al is a local array all of whose writes are constant stores at constant indices
+// (a composite literal) and whose address goes nowhere else; returns the range of its elements
+// (zero included when the literal leaves elements out).
+func constArrayRange(al *ssa.Alloc) (lo, hi int64, ok bool) {
+	pt, isP := al.Type().Underlying().(*types.Pointer)
+	if !isP {
+		return 0, 0, false
+	}
+	arr, isArr := pt.Elem().Underlying().(*types.Array)
+	if !isArr {
+		return 0, 0, false
+	}
+	n := int64(0)
+	for _, ref := range *al.Referrers() {
+		switch r := ref.(type) {
+		case *ssa.IndexAddr:
+			for _, r2 := range *r.Referrers() {
+				switch u := r2.(type) {
+				case *ssa.Store:
+					if u.Addr != ssa.Value(r) {
+						return 0, 0, false
+					}
+					k, isK := constInt(u.Val)
+					if _, idxK := constInt(r.Index); !isK || !idxK {
+						return 0, 0, false
+					}
+					if n == 0 || k < lo {
+						lo = k
+					}
+					if n == 0 || k > hi {
+						hi = k
+					}
+					n++
+				case *ssa.UnOp, *ssa.DebugRef:
+				default:
+					return 0, 0, false
+				}
+			}
+		case *ssa.DebugRef:
+		default:
+			return 0, 0, false // sliced, copied or passed on
+		}
+	}
+	if n == 0 {
+		return 0, 0, false
+	}
+	if n < arr.Len() {
+		if lo > 0 {
+			lo = 0
+		}
+		if hi < 0 {
+			hi = 0
 		}
 	}
 	return lo, hi, true
@@ -1881,6 +1955,17 @@ func (P *Prover) phiStep(goal Poly, blk *ssa.BasicBlock, hyps []hyp, depth int) 
 		}
 	}
 	return true
+}
+
+// atomIDOf: the id of the opaque atom standing for v (created if needed).
+func (P *Prover) atomIDOf(v ssa.Value) int {
+	q := P.poly(v)
+	for m := range q {
+		if m != "" && !strings.Contains(m, "*") {
+			return atoi(m)
+		}
+	}
+	return -1
 }
 
 func (P *Prover) phisIn(p Poly) []*ssa.Phi {
